@@ -309,6 +309,161 @@ func (u *vuUniverse) c11RefRelative(bl map[string]string, vq versionQuery) (modu
 	return module.Version{Path: p, Version: best}, true
 }
 
+// --- aliased roots ---------------------------------------------------------------------------------------------
+//
+// dawn.toml may name one project path under several requirement names, and the entries may carry different
+// versions (a merged or hand-edited file).  The build list takes the highest.  Every operation reads the root
+// through a Go map (iteration order differs from run to run), re-attaches the old names to whatever the edit
+// computed, and get's two early returns hand the old entries back unmerged - so this is the class of roots on which
+// "lowers no other project", "tidy keeps the build list", "names are preserved" and "repeating changes nothing"
+// depend on how the names of one path are treated, and on which the result must not depend on the iteration order.
+
+// c11AliasModes: how the versions are spread over the names of the aliased path.
+var c11AliasModes = []string{"equal", "low-first", "low-last", "mixed"}
+
+// c11AliasRoot adds 2-3 names for one project path to a generated root.  The path is one with at least two tagged
+// versions when the universe has one (mode "equal" does not need it).  Names are chosen so that they sort before,
+// between and after the other names.  It returns the aliased path ("" when the universe offers none).
+func c11AliasRoot(rng *rand.Rand, u *vuUniverse, cfg map[string]project.RequirementConfig, mode string) string {
+	byPath := map[string][]string{}
+	var paths []string
+	for _, t := range u.tags {
+		p := vuTagPath(t.dir, t.ver)
+		if _, ok := byPath[p]; !ok {
+			paths = append(paths, p)
+		}
+		byPath[p] = append(byPath[p], t.ver)
+	}
+	var multi []string
+	for _, p := range paths {
+		if len(byPath[p]) >= 2 {
+			multi = append(multi, p)
+		}
+	}
+	var p string
+	switch {
+	case len(multi) > 0 && (mode != "equal" || rng.Intn(2) == 0):
+		p = multi[rng.Intn(len(multi))]
+	case mode == "equal":
+		p = paths[rng.Intn(len(paths))]
+	default:
+		return ""
+	}
+	vers := append([]string(nil), byPath[p]...)
+	sort.Slice(vers, func(i, j int) bool { return semver.Compare(vers[i], vers[j]) < 0 })
+	// drop what the root already says about the path: the aliases below are all of it
+	for n, r := range cfg {
+		if r.Path == p {
+			delete(cfg, n)
+		}
+	}
+	k := 2 + rng.Intn(2)
+	namePool := []string{"0first", "a_" + path.Base(p), path.Base(p), "core", "lib", "m_" + path.Base(p), "zz_last", "~tilde"}
+	rng.Shuffle(len(namePool), func(i, j int) { namePool[i], namePool[j] = namePool[j], namePool[i] })
+	var names []string
+	for _, n := range namePool {
+		if _, taken := cfg[n]; !taken && len(names) < k {
+			names = append(names, n)
+		}
+	}
+	sort.Strings(names)
+	lo := rng.Intn(len(vers))
+	hi := lo
+	if len(vers) > 1 {
+		lo = rng.Intn(len(vers) - 1)
+		hi = lo + 1 + rng.Intn(len(vers)-lo-1)
+	}
+	for i, n := range names {
+		v := vers[hi]
+		switch mode {
+		case "equal":
+			v = vers[lo]
+		case "low-first":
+			if i == 0 {
+				v = vers[lo]
+			}
+		case "low-last":
+			if i == len(names)-1 {
+				v = vers[lo]
+			}
+		default: // mixed: any version of the path under any name
+			v = vers[rng.Intn(len(vers))]
+		}
+		cfg[n] = project.RequirementConfig{Path: p, Version: v}
+	}
+	return p
+}
+
+// c11AliasOp draws the next operation of an aliased sequence: get of a project that is absent from the build list
+// (the early return that prepends), get of a present project at the version it is selected at (the early return
+// that hands the root back), a query on the aliased path itself (each of its versions, ranges, patch, upgrade),
+// tidy, upgrade-all.
+func c11AliasOp(rng *rand.Rand, u *vuUniverse, bl map[string]string, aliased string) c11Op {
+	switch r := rng.Intn(20); {
+	case r < 5:
+		var absent []vuTag
+		for _, t := range u.tags {
+			if _, ok := bl[vuTagPath(t.dir, t.ver)]; !ok {
+				absent = append(absent, t)
+			}
+		}
+		if len(absent) == 0 {
+			return c11Op{Op: "tidy"}
+		}
+		t := absent[rng.Intn(len(absent))]
+		q := vuTagPath(t.dir, t.ver)
+		switch rng.Intn(3) {
+		case 0:
+			q += "@" + t.ver
+		case 1:
+			q += "@latest"
+		}
+		return c11Op{Op: "get", Q: q}
+	case r < 8:
+		var present []string
+		for _, kv := range vuSortedMap(bl) {
+			if kv[0] != "" {
+				present = append(present, kv[0])
+			}
+		}
+		if len(present) == 0 {
+			return c11Op{Op: "tidy"}
+		}
+		p := present[rng.Intn(len(present))]
+		if rng.Intn(2) == 0 {
+			p = aliased
+		}
+		if v, ok := bl[p]; ok {
+			return c11Op{Op: "get", Q: p + "@" + v}
+		}
+		return c11Op{Op: "get", Q: p}
+	case r < 12:
+		return c11Op{Op: "get", Q: c11GenQueryOn(rng, u, aliased)}
+	case r < 16:
+		return c11Op{Op: "tidy"}
+	default:
+		return c11Op{Op: "upgradeall"}
+	}
+}
+
+// c11NodeSet: the (path, version) pairs of a configuration.
+func c11NodeSet(cfg map[string]project.RequirementConfig) map[[2]string]bool {
+	out := map[[2]string]bool{}
+	for _, r := range cfg {
+		out[[2]string{r.Path, r.Version}] = true
+	}
+	return out
+}
+
+func c11SortedNodes(m map[[2]string]bool) [][2]string {
+	out := make([][2]string, 0, len(m))
+	for k := range m {
+		out = append(out, k)
+	}
+	sort.Slice(out, func(i, j int) bool { return out[i][0] < out[j][0] || (out[i][0] == out[j][0] && out[i][1] < out[j][1]) })
+	return out
+}
+
 func c11Paths(cfg map[string]project.RequirementConfig) map[string]bool {
 	out := map[string]bool{}
 	for _, v := range cfg {
@@ -385,6 +540,11 @@ func TestVerifC11(t *testing.T) {
 	}
 
 	nuntag := vuEnvInt("VERIF_NSEQ_UNTAGGED", 1)
+	nalias := vuEnvInt("VERIF_NSEQ_ALIASED", 1)
+	// every application is run this many times on a freshly built root map (Go randomises the iteration order of
+	// every map range): the runs have to agree
+	runs := vuEnvInt("VERIF_RUNS", 3)
+	runsAliased := vuEnvInt("VERIF_RUNS_ALIASED", 8)
 	for ui := 0; ui < nuniv; ui++ {
 		u := vuGen(rng, ui, false)
 		// every fourth universe: some projects require an untagged commit of another project
@@ -395,25 +555,260 @@ func TestVerifC11(t *testing.T) {
 		resolver := NewResolver(t.TempDir(), u.dialer, nil)
 		querier := newQuerier(resolver)
 
-		for si := 0; si < nseq+nuntag; si++ {
+		// evalApp: one observed application cfg --op--> (res1, cfg1): emitted for the model, the statement's clauses
+		// checked directly.  It returns the project a ref query has just moved to an untagged commit.
+		evalApp := func(cfg map[string]project.RequirementConfig, op c11Op, fam string,
+			res1 c11Res, cfg1 map[string]project.RequirementConfig, msg string) string {
+			bl0, ok0 := u.refBuildList(c11CfgReqs(cfg))
+			caseID++
+
+			// what the query resolves to, from the implementation's own resolver
+			var rv module.Version
+			haveRv := false
+			vq := parseVersionQuery(op.Q)
+			if op.Op == "get" && ok0 {
+				r := vuCall(func() (module.Version, error) {
+					return querier.resolveVersionQuery(context.Background(), c11BLList(bl0), vq)
+				})
+				if r.st == "ok" {
+					rv, haveRv = r.val, true
+				}
+				// patch / upgrade are defined relative to the selection: the selected version unless a tag is newer
+				if want, ok := u.c11RefRelative(bl0, vq); ok && r.st != "hang" && r.st != "panic" && (r.st != "ok" || r.val != want) {
+					oracle("resolves-relative-to-selection", u, cfg, op, map[string]any{"selected": bl0[want.Path],
+						"want": want.Version, "resolved": r.val.Version, "outcome": r.st, "msg": r.msg})
+				}
+			}
+
+			rec := map[string]any{"t": "C11", "case": caseID, "u": u.id, "cfg": vuSortedCfg(cfg), "op": op,
+				"qp": [2]string{vq.path, vq.query}, "res": res1}
+			if haveRv {
+				rec["rv"] = [2]string{rv.Path, rv.Version}
+			}
+			if sel, ok := bl0[project.CleanPath(vq.path)]; ok && op.Op == "get" && ok0 {
+				rec["sel"] = sel // the selection the query looks at
+			}
+			if fam != "" {
+				rec["fam"] = fam
+			}
+			out.emit(rec)
+
+			if res1.St == "panic" || res1.St == "hang" {
+				oracle("no-panic-no-hang", u, cfg, op, map[string]any{"outcome": res1.St, "msg": msg})
+				return ""
+			}
+			if res1.St != "ok" {
+				if ok0 && op.Op == "tidy" {
+					// tidy of a resolvable configuration only visits resolvable projects: it must not fail
+					oracle("tidy-succeeds", u, cfg, op, map[string]any{"msg": msg})
+				}
+				return ""
+			}
+			if !ok0 {
+				return ""
+			}
+			bl1, ok1 := u.refBuildList(c11CfgReqs(cfg1))
+			if !ok1 {
+				// the operation pulled in a tagged version one of whose requirements is not tagged (a malformed
+				// universe entry): nothing to compare
+				return ""
+			}
+			noLower := func() {
+				for _, kv := range vuSortedMap(bl0) {
+					p, v := kv[0], kv[1]
+					if w, ok := bl1[p]; !ok || vuCmp(w, v) < 0 {
+						oracle("lowers-no-project", u, cfg, op, map[string]any{"path": p, "before": v, "after": w,
+							"result": res1.Cfg})
+						return
+					}
+				}
+			}
+			overshoot1 := false
+			switch op.Op {
+			case "tidy":
+				if !vuMapEq(bl0, bl1) {
+					oracle("tidy-preserves-build-list", u, cfg, op, map[string]any{"before": vuSortedMap(bl0),
+						"after": vuSortedMap(bl1), "result": res1.Cfg})
+				}
+			case "upgradeall":
+				noLower()
+				for _, kv := range vuSortedMap(bl0) {
+					p, v := kv[0], kv[1]
+					if p == "" {
+						continue
+					}
+					if want := u.latestSameMajor(p, v); vuCmp(bl1[p], want) < 0 {
+						oracle("upgrade-all-reaches-latest", u, cfg, op, map[string]any{"path": p, "want": want,
+							"after": bl1[p], "result": res1.Cfg})
+						break
+					}
+				}
+			case "get":
+				if !haveRv {
+					break
+				}
+				cur, present := bl0[rv.Path]
+				if vq.query == "patch" || vq.query == "upgrade" {
+					// an upgrade-type query by definition (the selection or something newer): whatever the
+					// resolver answered, the edit lowers nothing and keeps the project at or above its selection
+					noLower()
+				}
+				if present && semver.Compare(cur, rv.Version) > 0 {
+					// downgrade: at or below the request, absent counts as below
+					if w, ok := bl1[rv.Path]; ok && semver.Compare(w, rv.Version) > 0 {
+						oracle("downgrade-at-or-below", u, cfg, op, map[string]any{"resolved": rv.Version, "after": w,
+							"result": res1.Cfg})
+					}
+					if w, ok := bl1[rv.Path]; !ok || w != rv.Version {
+						overshoot1 = true
+					}
+				} else {
+					// add / upgrade / already there: contains the resolved version, lowers nothing
+					w, ok := bl1[rv.Path]
+					if !ok || semver.Compare(w, rv.Version) < 0 {
+						oracle("upgrade-contains-resolved", u, cfg, op, map[string]any{"resolved": rv.Version, "after": w,
+							"result": res1.Cfg})
+					} else if w != rv.Version {
+						// higher only when the resolved version's own requirements demand it
+						want, _ := u.refBuildList(append(c11CfgReqs(cfg), rv))
+						if want[rv.Path] != w {
+							oracle("upgrade-contains-resolved", u, cfg, op, map[string]any{"resolved": rv.Version,
+								"after": w, "demanded": want[rv.Path], "result": res1.Cfg})
+						}
+					}
+					noLower()
+				}
+			}
+
+			// names: the result holds exactly the requirements computed by the operation (none lost to a name
+			// collision, none invented; a path may carry several versions when the root named it several times and the
+			// edit handed the entries back), and a path that remains keeps every name it had
+			if nv, ok := c11TxVersions(resolver, cfg, op); ok {
+				want := map[[2]string]bool{}
+				remains := map[string]bool{}
+				for _, v := range nv {
+					if v.Path != "" {
+						want[[2]string{v.Path, v.Version}] = true
+						remains[v.Path] = true
+					}
+				}
+				got := c11NodeSet(cfg1)
+				same := len(want) == len(got)
+				for k := range want {
+					same = same && got[k]
+				}
+				if !same {
+					oracle("new-names-unique", u, cfg, op, map[string]any{"requirements": c11SortedNodes(want),
+						"result": res1.Cfg})
+				}
+				for _, e := range vuSortedCfg(cfg) {
+					n, p := e[0], e[1]
+					if !remains[p] || p == "" {
+						continue
+					}
+					if r1, ok := cfg1[n]; !ok || r1.Path != p {
+						oracle("names-preserved", u, cfg, op, map[string]any{"reqname": n, "path": p, "result": res1.Cfg})
+						break
+					}
+				}
+			}
+
+			// idempotence: the same operation on the result changes nothing
+			res2, cfg2, msg2 := c11Apply(u, resolver, cfg1, op)
+			caseID++
+			out.emit(map[string]any{"t": "C11", "case": caseID, "u": u.id, "cfg": vuSortedCfg(cfg1), "op": op,
+				"qp": [2]string{vq.path, vq.query}, "res": res2, "repeat": true})
+			if res2.St != "ok" || !vuCfgEq(cfg1, cfg2) {
+				overshoot2 := false
+				if op.Op == "get" && res2.St == "ok" {
+					r := vuCall(func() (module.Version, error) {
+						return querier.resolveVersionQuery(context.Background(), c11BLList(bl1), vq)
+					})
+					bl2, ok2 := u.refBuildList(c11CfgReqs(cfg2))
+					if r.st == "ok" && ok2 {
+						cur1, present := bl1[r.val.Path]
+						if w, ok := bl2[r.val.Path]; present && semver.Compare(cur1, r.val.Version) > 0 && (!ok || w != r.val.Version) {
+							overshoot2 = true
+						}
+					}
+				}
+				name := "idempotent"
+				if overshoot1 || overshoot2 {
+					name = "idempotent:get-downgrade-overshoot"
+				} else if _, present := bl0[rv.Path]; op.Op == "get" && haveRv && vq.query == "patch" && !present {
+					// @patch of a project that is not in the build list resolves as @latest (releases preferred);
+					// the repeat resolves as a patch query (prereleases count)
+					name = "idempotent:get-patch-absent"
+				}
+				oracle(name, u, cfg, op, map[string]any{"first": res1.Cfg, "second": res2, "msg": msg2,
+					"resolved": fmt.Sprint(rv)})
+			}
+			if op.Op == "get" && haveRv && module.IsPseudoVersion(rv.Version) {
+				return rv.Path
+			}
+			return ""
+		}
+
+		// applyAll: the operation, [n] times; the distinct outcomes in order of first appearance
+		type variant struct {
+			res  c11Res
+			cfg  map[string]project.RequirementConfig
+			msg  string
+			runs int
+		}
+		applyAll := func(cfg map[string]project.RequirementConfig, op c11Op, n int) []*variant {
+			var vs []*variant
+			for i := 0; i < n; i++ {
+				res, cfg1, msg := c11Apply(u, resolver, cfg, op)
+				var hit *variant
+				for _, v := range vs {
+					if v.res.St == res.St && (res.St != "ok" || vuCfgEq(v.cfg, cfg1)) {
+						hit = v
+					}
+				}
+				if hit != nil {
+					hit.runs++
+					continue
+				}
+				vs = append(vs, &variant{res: res, cfg: cfg1, msg: msg, runs: 1})
+				if res.St == "hang" {
+					break
+				}
+			}
+			return vs
+		}
+
+		for si := 0; si < nseq+nuntag+nalias; si++ {
 			cfg := vuGenRoot(rng, u, dupPaths)
-			// the last sequence(s) of every universe start from a root that requires untagged commits and aim
-			// their queries at the projects that are selected at one
-			untagged := si >= nseq
-			if untagged {
+			// the last sequences of every universe start from special roots: one that requires untagged commits (the
+			// queries are then aimed at the projects selected at one), one that names a path under several names
+			fam, aliased, mode := "", "", ""
+			switch {
+			case si >= nseq+nuntag:
+				mode = c11AliasModes[(ui+si)%len(c11AliasModes)]
+				if aliased = c11AliasRoot(rng, u, cfg, mode); aliased != "" {
+					fam = "aliased:" + mode
+				}
+			case si >= nseq:
+				fam = "untagged"
 				c11UntagRoot(rng, u, cfg)
 			}
 			nops := 1 + rng.Intn(4)
+			if aliased != "" {
+				nops = 1 + rng.Intn(3)
+			}
 			follow := "" // the project a ref query has just moved: the next get looks at it again
 			for oi := 0; oi < nops; oi++ {
-				bl0, ok0 := u.refBuildList(c11CfgReqs(cfg))
+				bl0, _ := u.refBuildList(c11CfgReqs(cfg))
 
 				var op c11Op
 				ups := c11UntaggedPaths(bl0)
 				switch r := rng.Intn(10); {
+				case aliased != "":
+					op = c11AliasOp(rng, u, bl0, aliased)
 				case follow != "" && r < 5:
 					op = c11Op{Op: "get", Q: c11GenQueryOn(rng, u, follow)}
-				case untagged && len(ups) > 0 && r < 7:
+				case fam == "untagged" && len(ups) > 0 && r < 7:
 					op = c11Op{Op: "get", Q: c11GenQueryOn(rng, u, ups[rng.Intn(len(ups))])}
 				case r < 6:
 					op = c11Op{Op: "get", Q: c11GenQuery(rng, u)}
@@ -422,194 +817,33 @@ func TestVerifC11(t *testing.T) {
 				default:
 					op = c11Op{Op: "upgradeall"}
 				}
+
+				n := runs
+				if aliased != "" {
+					n = runsAliased
+				}
+				// (a process that dies inside the call leaves this as its last record)
+				out.emit(map[string]any{"t": "START", "case": caseID + 1, "cfg": vuSortedCfg(cfg), "op": op})
+				vs := applyAll(cfg, op, n)
+				if len(vs) > 1 {
+					var outcomes []any
+					for _, v := range vs {
+						outcomes = append(outcomes, map[string]any{"runs": v.runs, "st": v.res.St, "cfg": v.res.Cfg})
+					}
+					oracle("result-depends-on-map-order", u, cfg, op, map[string]any{"runs": n, "outcomes": outcomes})
+				}
+				// every distinct outcome is an observed behaviour: each is compared with the model and checked
 				follow = ""
-				caseID++
-				out.emit(map[string]any{"t": "START", "case": caseID})
-
-				// what the query resolves to, from the implementation's own resolver
-				var rv module.Version
-				haveRv := false
-				vq := parseVersionQuery(op.Q)
-				if op.Op == "get" && ok0 {
-					r := vuCall(func() (module.Version, error) {
-						return querier.resolveVersionQuery(context.Background(), c11BLList(bl0), vq)
-					})
-					if r.st == "ok" {
-						rv, haveRv = r.val, true
-					}
-					// patch / upgrade are defined relative to the selection: the selected version unless a tag is newer
-					if want, ok := u.c11RefRelative(bl0, vq); ok && r.st != "hang" && r.st != "panic" && (r.st != "ok" || r.val != want) {
-						oracle("resolves-relative-to-selection", u, cfg, op, map[string]any{"selected": bl0[want.Path],
-							"want": want.Version, "resolved": r.val.Version, "outcome": r.st, "msg": r.msg})
+				for _, v := range vs {
+					if f := evalApp(cfg, op, fam, v.res, v.cfg, v.msg); f != "" {
+						follow = f
 					}
 				}
-
-				res1, cfg1, msg := c11Apply(u, resolver, cfg, op)
-				rec := map[string]any{"t": "C11", "case": caseID, "u": u.id, "cfg": vuSortedCfg(cfg), "op": op,
-					"qp": [2]string{vq.path, vq.query}, "res": res1}
-				if haveRv {
-					rec["rv"] = [2]string{rv.Path, rv.Version}
+				if vs[0].res.St == "ok" {
+					cfg = vs[0].cfg
 				}
-				if sel, ok := bl0[project.CleanPath(vq.path)]; ok && op.Op == "get" && ok0 {
-					rec["sel"] = sel // the selection the query looks at
-				}
-				if untagged {
-					rec["fam"] = "untagged"
-				}
-				out.emit(rec)
-
-				if res1.St == "panic" || res1.St == "hang" {
-					oracle("no-panic-no-hang", u, cfg, op, map[string]any{"outcome": res1.St, "msg": msg})
-					continue
-				}
-				if res1.St != "ok" {
-					if ok0 && op.Op == "tidy" {
-						// tidy of a resolvable configuration only visits resolvable projects: it must not fail
-						oracle("tidy-succeeds", u, cfg, op, map[string]any{"msg": msg})
-					}
-					continue
-				}
-				if !ok0 {
-					cfg = cfg1
-					continue
-				}
-				bl1, ok1 := u.refBuildList(c11CfgReqs(cfg1))
-				if !ok1 {
-					// the operation pulled in a tagged version one of whose requirements is not tagged (a malformed
-					// universe entry): nothing to compare
-					cfg = cfg1
-					continue
-				}
-				noLower := func() {
-					for p, v := range bl0 {
-						if w, ok := bl1[p]; !ok || vuCmp(w, v) < 0 {
-							oracle("lowers-no-project", u, cfg, op, map[string]any{"path": p, "before": v, "after": w,
-								"result": res1.Cfg})
-							return
-						}
-					}
-				}
-				overshoot1 := false
-				switch op.Op {
-				case "tidy":
-					if !vuMapEq(bl0, bl1) {
-						oracle("tidy-preserves-build-list", u, cfg, op, map[string]any{"before": vuSortedMap(bl0),
-							"after": vuSortedMap(bl1), "result": res1.Cfg})
-					}
-				case "upgradeall":
-					noLower()
-					for p, v := range bl0 {
-						if p == "" {
-							continue
-						}
-						if want := u.latestSameMajor(p, v); vuCmp(bl1[p], want) < 0 {
-							oracle("upgrade-all-reaches-latest", u, cfg, op, map[string]any{"path": p, "want": want,
-								"after": bl1[p], "result": res1.Cfg})
-							break
-						}
-					}
-				case "get":
-					if !haveRv {
-						break
-					}
-					cur, present := bl0[rv.Path]
-					if vq.query == "patch" || vq.query == "upgrade" {
-						// an upgrade-type query by definition (the selection or something newer): whatever the
-						// resolver answered, the edit lowers nothing and keeps the project at or above its selection
-						noLower()
-					}
-					if present && semver.Compare(cur, rv.Version) > 0 {
-						// downgrade: at or below the request, absent counts as below
-						if w, ok := bl1[rv.Path]; ok && semver.Compare(w, rv.Version) > 0 {
-							oracle("downgrade-at-or-below", u, cfg, op, map[string]any{"resolved": rv.Version, "after": w,
-								"result": res1.Cfg})
-						}
-						if w, ok := bl1[rv.Path]; !ok || w != rv.Version {
-							overshoot1 = true
-						}
-					} else {
-						// add / upgrade / already there: contains the resolved version, lowers nothing
-						w, ok := bl1[rv.Path]
-						if !ok || semver.Compare(w, rv.Version) < 0 {
-							oracle("upgrade-contains-resolved", u, cfg, op, map[string]any{"resolved": rv.Version, "after": w,
-								"result": res1.Cfg})
-						} else if w != rv.Version {
-							// higher only when the resolved version's own requirements demand it
-							want, _ := u.refBuildList(append(c11CfgReqs(cfg), rv))
-							if want[rv.Path] != w {
-								oracle("upgrade-contains-resolved", u, cfg, op, map[string]any{"resolved": rv.Version,
-									"after": w, "demanded": want[rv.Path], "result": res1.Cfg})
-							}
-						}
-						noLower()
-					}
-				}
-
-				// names: the result holds exactly the requirement list computed by the operation (no requirement lost
-				// to a name collision, none invented), and a path that remains keeps every name it had
-				if nv, ok := c11TxVersions(resolver, cfg, op); ok {
-					want := map[string]string{}
-					for _, v := range nv {
-						if v.Path != "" {
-							want[v.Path] = v.Version
-						}
-					}
-					got := map[string]string{}
-					for _, r := range cfg1 {
-						got[r.Path] = r.Version
-					}
-					if !vuMapEq(want, got) {
-						oracle("new-names-unique", u, cfg, op, map[string]any{"requirements": vuSortedMap(want),
-							"result": res1.Cfg})
-					}
-					for n, r := range cfg {
-						if _, remains := want[r.Path]; !remains || r.Path == "" {
-							continue
-						}
-						if r1, ok := cfg1[n]; !ok || r1.Path != r.Path {
-							oracle("names-preserved", u, cfg, op, map[string]any{"reqname": n, "path": r.Path, "result": res1.Cfg})
-							break
-						}
-					}
-				}
-
-				// idempotence: the same operation on the result changes nothing
-				res2, cfg2, msg2 := c11Apply(u, resolver, cfg1, op)
-				caseID++
-				out.emit(map[string]any{"t": "C11", "case": caseID, "u": u.id, "cfg": vuSortedCfg(cfg1), "op": op,
-					"qp": [2]string{vq.path, vq.query}, "res": res2, "repeat": true})
-				if res2.St != "ok" || !vuCfgEq(cfg1, cfg2) {
-					overshoot2 := false
-					if op.Op == "get" && res2.St == "ok" {
-						r := vuCall(func() (module.Version, error) {
-							return querier.resolveVersionQuery(context.Background(), c11BLList(bl1), vq)
-						})
-						bl2, ok2 := u.refBuildList(c11CfgReqs(cfg2))
-						if r.st == "ok" && ok2 {
-							cur1, present := bl1[r.val.Path]
-							if w, ok := bl2[r.val.Path]; present && semver.Compare(cur1, r.val.Version) > 0 && (!ok || w != r.val.Version) {
-								overshoot2 = true
-							}
-						}
-					}
-					name := "idempotent"
-					if overshoot1 || overshoot2 {
-						name = "idempotent:get-downgrade-overshoot"
-					} else if _, present := bl0[rv.Path]; op.Op == "get" && haveRv && vq.query == "patch" && !present {
-						// @patch of a project that is not in the build list resolves as @latest (releases preferred);
-						// the repeat resolves as a patch query (prereleases count)
-						name = "idempotent:get-patch-absent"
-					}
-					oracle(name, u, cfg, op, map[string]any{"first": res1.Cfg, "second": res2, "msg": msg2,
-						"resolved": fmt.Sprint(rv)})
-				}
-				if op.Op == "get" && haveRv && module.IsPseudoVersion(rv.Version) {
-					follow = rv.Path
-				}
-				cfg = cfg1
 			}
 		}
 	}
 	out.emit(map[string]any{"t": "END", "cases": caseID})
-	_ = sort.Strings
 }
